@@ -1278,3 +1278,20 @@ func c11Spec() propSpec {
 }
 
 func TestVerifC11ConsumerViews(t *testing.T) { runProp(t, c11Spec()) }
+
+// c11ConcSpec: same oracles, histories dominated by concurrent Handle* callers that
+// collide on one block hash (lookup / merge / add / conflict / retry interleavings).
+func c11ConcSpec() propSpec {
+	sp := c11Spec()
+	sp.test = "TestVerifC11ConcurrentCallers"
+	sp.rule = "histories of 3-14 ops dominated by concurrent groups of Handle* callers for the voting round, two thirds of them a light (one signer) and a heavy (all other signers, optionally a second target) caller for the same block hash so that the heavy caller's update conflicts with the light one's and is retried; same per-consumer invariants as TestVerifC11ConsumerViews (versions strictly increase, content only grows, one (height, round, version) names one content, a drained consumer holds the mirror's current view); non-trivial = at least two such colliding pairs ran; distinct = fingerprint of (config, op list)"
+	sp.profile.w = map[string]int{"ph": 2, "vote": 2, "round": 3, "stall": 1, "read": 1, "conc": 12}
+	sp.profile.minOps, sp.profile.maxOps = 3, 14
+	sp.profile.racePairs = true
+	sp.profile.stallFirst = false
+	sp.profile.dh, sp.profile.dr = []int{0}, []int{0, 0, 0, 1}
+	sp.nontrivial = func(s *sim) bool { return s.labels["race-pair"] >= 2 }
+	return sp
+}
+
+func TestVerifC11ConcurrentCallers(t *testing.T) { runProp(t, c11ConcSpec()) }
